@@ -28,6 +28,7 @@ def SIZE(vec):
 
 
 HW = ("ap", "new:HashWriter")
+PREV = ("prev", 0)
 ZERO256 = ("ap", "new:uint256")
 
 
@@ -43,7 +44,7 @@ def items_term(base, items):
 
 
 def sha_helper(vec, item, ty, fin="m:GetSHA256"):
-    return ("ap", fin, ("ap", "loopvar", vec, items_term(HW, [I(item(("elem", vec)), ty)]), HW))
+    return ("ap", fin, ("ap", "loopvar", vec, items_term(PREV, [I(item(("elem", vec)), ty)]), HW, C(0)))
 
 
 def helper_terms(tx, spent):
@@ -63,11 +64,10 @@ def flatten(t):
         if t[1].startswith("mut:"):
             items.append(("op", t[1][4:]) + tuple(t[3:]))
             t = t[2]
-        elif t[1] == "loopvar" and len(t) == 5:
-            # loopvar(key, term after one iteration, term before the loop)
+        elif t[1] == "loopvar" and len(t) == 6:
+            # loopvar(key, term of one iteration relative to prev, term before the loop)
             sub, _ = flatten(t[3])
-            pre, _ = flatten(t[4])
-            items.append(("loop", t[2], sub[len(pre):] if sub[:len(pre)] == pre else sub))
+            items.append(("loop", t[2], sub))
             t = t[4]
         elif t[1].startswith("out:") and len(t) >= 3:
             items.append(("op", "call:" + t[1][4:].split("#")[0]) + tuple(t[3:]))
